@@ -35,7 +35,10 @@ def plan(tier: str):
             ('geophires', mc.GEO_BASE, [('Reservoir Permeability', 'uniform', 1e-14, 1e-12, None), ('Reservoir Volume', 'normal', 2.0e9, 1.0e8, None)],
              mc.GEO_OUTPUTS[:1], 12, 4),
             ('geophires', mc.GEO_BASE, [('Gradient 1', 'uniform', 60.0, 60.000004, None), ('Surface Temperature', 'triangular', 14.999999, 15.0, 15.000001)],
-             mc.GEO_OUTPUTS[:1], 14, 2)]
+             mc.GEO_OUTPUTS[:1], 14, 2),
+            # the third program the driver knows (legacy HIP-RA), failing iterations, and a result file named by a relative settings line
+            ('hip_ra', mc.HIPRA_BASE, mc.HIPRA_INPUTS, mc.HIPRA_OUTPUTS, 48, 3, 'relative'),
+            ('geophires', mc.GEO_BASE, [('Utilization Factor', 'uniform', 0.6, 1.25, None)], mc.GEO_OUTPUTS[:2], 16, 2, 'relative')]
     if tier == 'thorough':
         for w in (1, 2, 3, 4, 8, 16):
             runs.append(('geophires', mc.GEO_BASE, mc.GEO_INPUTS, mc.GEO_OUTPUTS, rng.choice([30, 60, 100]), w))
@@ -46,7 +49,7 @@ def plan(tier: str):
 
 def execute(runs, replay: bool):
     with cf.ThreadPoolExecutor(max_workers=3) as ex:
-        raw = list(ex.map(lambda a: mc.run_mc(*a), runs))
+        raw = list(ex.map(lambda a: mc.run_mc(*a[:6], relative=(len(a) > 6 and a[6] == 'relative')), runs))
     return [mc.build_trace(k + 1, r, replay) for k, r in enumerate(raw)], raw
 
 
